@@ -116,20 +116,139 @@ def call_params(fi: FuncInfo, bound: bool) -> list[str]:
 
 def bind(call: ast.Call, fi: FuncInfo, bound: bool) -> dict[str, ast.AST]:
     """parameter name -> argument expression for a call of ``fi`` (bound: called as a method on an instance)."""
-    if any(isinstance(x, ast.Starred) for x in call.args) or any(k.arg is None for k in call.keywords):
-        raise AnalysisError(f"call `{norm(call)}` uses * / **: cannot bind arguments")
+    args: list[ast.AST] = []
+    for x in call.args:
+        if isinstance(x, ast.Starred):
+            lit = _literal_behind(x.value, call)
+            if not isinstance(lit, (ast.Tuple, ast.List)) or any(isinstance(y, ast.Starred) for y in lit.elts):
+                raise AnalysisError(f"call `{norm(call)}` uses *{norm(x.value)}, which is not a literal sequence (or a local bound once to one): cannot bind arguments")
+            args.extend(lit.elts)
+        else:
+            args.append(x)
+    keywords: list[tuple[str, ast.AST]] = []
+    for k in call.keywords:
+        if k.arg is None:
+            lit = _literal_behind(k.value, call)
+            pairs: list[tuple[str, ast.AST]] | None = None
+            if isinstance(lit, ast.Dict) and all(isinstance(kk, ast.Constant) and isinstance(kk.value, str) for kk in lit.keys):
+                pairs = [(kk.value, v) for kk, v in zip(lit.keys, lit.values)]  # type: ignore[union-attr]
+            elif isinstance(lit, ast.Call) and dotted(lit.func) == "dict" and not lit.args and all(kk.arg is not None for kk in lit.keywords):
+                pairs = [(kk.arg, kk.value) for kk in lit.keywords]  # type: ignore[misc]
+            elif isinstance(lit, ast.DictComp):
+                pairs = _unrolled_dictcomp(lit)
+            if pairs is None or len({n for n, _ in pairs}) != len(pairs):
+                raise AnalysisError(f"call `{norm(call)}` uses **{norm(k.value)}, which is not a literal table of keyword arguments (or a local bound once to one): cannot bind arguments")
+            keywords.extend(pairs)
+        else:
+            keywords.append((k.arg, k.value))
     pos = call_params(fi, bound)
     out: dict[str, ast.AST] = {}
-    for i, x in enumerate(call.args):
+    for i, x in enumerate(args):
         if i >= len(pos):
             raise AnalysisError(f"call `{norm(call)}` passes more positional arguments than {fi.fq} takes")
         out[pos[i]] = x
     kwonly = [x.arg for x in fi.node.args.kwonlyargs]  # type: ignore[attr-defined]
-    for k in call.keywords:
-        if k.arg not in pos and k.arg not in kwonly:
-            raise AnalysisError(f"call `{norm(call)}`: {fi.fq} has no parameter `{k.arg}`")
-        out[k.arg] = k.value  # type: ignore[index]
+    for name, v in keywords:
+        if name not in pos and name not in kwonly:
+            raise AnalysisError(f"call `{norm(call)}`: {fi.fq} has no parameter `{name}`")
+        if name in out:
+            raise AnalysisError(f"call `{norm(call)}` passes `{name}` twice")
+        out[name] = v
     return out
+
+
+class _FoldStr(ast.NodeTransformer):
+    """folds string expressions over constants: f-strings, `+`, and the pure str methods of a constant receiver"""
+
+    _METHODS = {"upper", "lower", "title", "capitalize", "strip", "replace", "removeprefix", "removesuffix", "format"}
+
+    def __init__(self, env: dict[str, t.Any]):
+        self.env = env
+
+    def visit_Name(self, n: ast.Name) -> ast.AST:
+        if isinstance(n.ctx, ast.Load) and n.id in self.env:
+            return ast.copy_location(ast.Constant(self.env[n.id]), n)
+        return n
+
+    def visit_JoinedStr(self, n: ast.JoinedStr) -> ast.AST:
+        self.generic_visit(n)
+        parts = []
+        for v in n.values:
+            if isinstance(v, ast.Constant) and isinstance(v.value, str):
+                parts.append(v.value)
+            elif isinstance(v, ast.FormattedValue) and v.conversion == -1 and v.format_spec is None and isinstance(v.value, ast.Constant) and isinstance(v.value.value, (str, int)) and not isinstance(v.value.value, bool):
+                parts.append(str(v.value.value))
+            else:
+                return n
+        return ast.copy_location(ast.Constant("".join(parts)), n)
+
+    def visit_BinOp(self, n: ast.BinOp) -> ast.AST:
+        self.generic_visit(n)
+        if isinstance(n.op, ast.Add) and all(isinstance(x, ast.Constant) and isinstance(x.value, str) for x in (n.left, n.right)):
+            return ast.copy_location(ast.Constant(n.left.value + n.right.value), n)  # type: ignore[attr-defined]
+        return n
+
+    def visit_Call(self, n: ast.Call) -> ast.AST:
+        self.generic_visit(n)
+        f = n.func
+        if isinstance(f, ast.Attribute) and f.attr in self._METHODS and isinstance(f.value, ast.Constant) and isinstance(f.value.value, str) and not n.keywords and all(isinstance(a, ast.Constant) and isinstance(a.value, (str, int)) for a in n.args):
+            try:
+                return ast.copy_location(ast.Constant(getattr(f.value.value, f.attr)(*[a.value for a in n.args])), n)  # type: ignore[attr-defined]
+            except (TypeError, ValueError, IndexError, KeyError):
+                return n
+        return n
+
+
+def _unrolled_dictcomp(e: ast.DictComp) -> list[tuple[str, ast.AST]] | None:
+    """``{f(k): g(k) for k in (<constants>)}`` written out: one (key, value expression) per constant, with the loop
+    variable replaced and constant string expressions folded.  None when the table is not of that form."""
+    import copy
+
+    if len(e.generators) != 1:
+        return None
+    g = e.generators[0]
+    if g.ifs or g.is_async or not isinstance(g.iter, (ast.Tuple, ast.List)):
+        return None
+    out: list[tuple[str, ast.AST]] = []
+    for el in g.iter.elts:
+        env: dict[str, t.Any] = {}
+        if isinstance(g.target, ast.Name) and isinstance(el, ast.Constant):
+            env[g.target.id] = el.value
+        elif isinstance(g.target, ast.Tuple) and isinstance(el, ast.Tuple) and len(el.elts) == len(g.target.elts) and all(isinstance(a, ast.Name) and isinstance(b, ast.Constant) for a, b in zip(g.target.elts, el.elts)):
+            env = {a.id: b.value for a, b in zip(g.target.elts, el.elts)}  # type: ignore[attr-defined]
+        else:
+            return None
+        k = _FoldStr(env).visit(copy.deepcopy(e.key))
+        v = ast.fix_missing_locations(_FoldStr(env).visit(copy.deepcopy(e.value)))
+        if not (isinstance(k, ast.Constant) and isinstance(k.value, str)):
+            return None
+        for ch in ast.walk(v):
+            for c2 in ast.iter_child_nodes(ch):
+                c2._parent = ch  # type: ignore[attr-defined]
+        out.append((k.value, v))
+    return out
+
+
+def _literal_behind(e: ast.AST, use: ast.AST) -> ast.AST | None:
+    """the literal a `*x` / `**x` argument stands for: the expression itself, or - for a local name - the value of its
+    only binding, provided the name occurs nowhere else in the function (so nothing is added to / removed from the
+    table between its creation and the call).  None when that cannot be established."""
+    if not isinstance(e, ast.Name):
+        return e
+    fn = getattr(use, "_parent", None)
+    while fn is not None and not isinstance(fn, (ast.FunctionDef, ast.AsyncFunctionDef, ast.Lambda)):
+        fn = getattr(fn, "_parent", None)
+    if fn is None:
+        return None
+    value = None
+    for n in walk_no_nested(fn):
+        if isinstance(n, ast.Name) and n.id == e.id and n is not e:
+            par = getattr(n, "_parent", None)
+            if isinstance(n.ctx, ast.Store) and value is None and isinstance(par, (ast.Assign, ast.AnnAssign)) and (par.targets == [n] if isinstance(par, ast.Assign) else par.target is n) and par.value is not None:
+                value = par.value
+            else:
+                return None
+    return value
 
 
 def param_default(fi: FuncInfo, name: str) -> ast.AST | None:
@@ -317,15 +436,57 @@ def none_proving(atom: ast.AST, label: str) -> str | None:
 # misc AST shapes
 
 
-def split_ifexp(e: ast.AST | None, conds: tuple = ()) -> list[tuple[ast.AST | None, tuple]]:
-    """``a if c else b`` -> [(a, ((c, "T"),)), (b, ((c, "F"),))] (nested, `not c` folded into the label); anything
+def split_ifexp(e: ast.AST | None, conds: tuple = (), lookup: t.Callable[[ast.Name], ast.AST | None] | None = None) -> list[tuple[ast.AST | None, tuple]]:
+    """``a if c else b`` -> [(a, ((c, "T"),)), (b, ((c, "F"),))] (nested, `not c` folded into the label; a two-entry
+    table indexed by a truth value, ``{True: a, False: b}[bool(c)]`` / ``(b, a)[bool(c)]``, is the same choice); anything
     else -> [(e, ())].  The conditions are single atoms or whole and/or expressions (callers that need atoms use
     ``cond_atoms``)."""
     if isinstance(e, ast.IfExp):
         t_, n = strip_not(e.test)
         lt, lf = ("T", "F") if n % 2 == 0 else ("F", "T")
-        return split_ifexp(e.body, conds + ((t_, lt),)) + split_ifexp(e.orelse, conds + ((t_, lf),))
+        return split_ifexp(e.body, conds + ((t_, lt),), lookup) + split_ifexp(e.orelse, conds + ((t_, lf),), lookup)
+    tw = two_way_table(e, lookup)
+    if tw is not None:
+        sel, on_true, on_false = tw
+        t_, n = strip_not(sel)
+        lt, lf = ("T", "F") if n % 2 == 0 else ("F", "T")
+        return split_ifexp(on_true, conds + ((t_, lt),), lookup) + split_ifexp(on_false, conds + ((t_, lf),), lookup)
     return [(e, conds)]
+
+
+def truth_selector(e: ast.AST) -> ast.AST | None:
+    """X when the expression's value is the *truth value* of X (so it can index a two-entry table): bool(X), not X,
+    a comparison; None for anything that may be another kind of value."""
+    if isinstance(e, ast.Call) and dotted(e.func) == "bool" and len(e.args) == 1 and not e.keywords:
+        return e.args[0]
+    if isinstance(e, ast.UnaryOp) and isinstance(e.op, ast.Not):
+        return e
+    if isinstance(e, ast.Compare):
+        return e
+    if isinstance(e, ast.Call) and dotted(e.func) == "int" and len(e.args) == 1 and not e.keywords:
+        return truth_selector(e.args[0])
+    return None
+
+
+def two_way_table(e: ast.AST | None, lookup: t.Callable[[ast.Name], ast.AST | None] | None = None) -> tuple[ast.AST, ast.AST, ast.AST] | None:
+    """``{True: a, False: b}[sel]`` / ``(b, a)[sel]`` / ``[b, a][sel]`` with ``sel`` a truth value (see
+    truth_selector) -> (X, a, b): the same choice as ``a if X else b``.  The table may be a literal, or a name that
+    ``lookup`` turns into its literal (a local bound once, a module constant)."""
+    if not isinstance(e, ast.Subscript):
+        return None
+    sel = truth_selector(e.slice)
+    if sel is None:
+        return None
+    tab = e.value
+    if isinstance(tab, ast.Name) and lookup is not None:
+        tab = lookup(tab)
+    if isinstance(tab, ast.Dict) and len(tab.keys) == 2 and all(isinstance(k, ast.Constant) and isinstance(k.value, bool) for k in tab.keys):
+        by = {k.value: v for k, v in zip(tab.keys, tab.values)}  # type: ignore[union-attr]
+        if set(by) == {True, False}:
+            return sel, by[True], by[False]
+    if isinstance(tab, (ast.Tuple, ast.List)) and len(tab.elts) == 2 and not any(isinstance(x, ast.Starred) for x in tab.elts):
+        return sel, tab.elts[1], tab.elts[0]
+    return None
 
 
 def cond_atoms(test: ast.AST, label: str) -> list[tuple[ast.AST, str]]:
